@@ -275,8 +275,6 @@ def judge(ctx, mode, tpls, recs, summ, profiles):
         if r['status'] in ('unsupported', 'inconclusive'):
             inconclusive.append('%s: %s %s [%s]' % (r['status'], r.get('detail'), r.get('where', ''), r.get('tpl', '')))
     inconclusive = sorted(set(inconclusive))
-    if summ.get('truncated'):
-        inconclusive.append('exploration truncated')
     covers = set()
     for r in recs:
         covers.update(r.get('covers', []))
